@@ -118,6 +118,12 @@ structure App (Pat : Type) where
 
 variable {Pat : Type}
 
+/-- `App::route(path, route)` / `Scope::route(path, route)` (`app.rs`, `scope.rs:260`):
+`Resource::new(path).add_guards(route.take_guards()).route(route)` — the route's guards become the
+*resource's* guards, the route itself is left unguarded -/
+def routeSugar (pat : Pat) (r : Route) : Node Pat :=
+  .resource pat r.guards none [⟨[], r.handler⟩] none
+
 def Node.pat : Node Pat → Pat
   | .resource p .. => p
   | .scope p .. => p
